@@ -64,6 +64,11 @@ def least_squares(jacobian, data, weights, damping=None, copy_jacobian=False):
     jacobian = scaler.fit_transform(jacobian)
     if damping is None:
         regr = LinearRegression(fit_intercept=False)
+        if "tol" in regr.get_params():
+            # Recent scikit-learn versions discard singular values smaller than
+            # tol * largest (1e-6 by default), which makes the exact
+            # (interpolating) solutions inexact. Use machine precision instead.
+            regr.set_params(tol=np.finfo(jacobian.dtype).eps)
     else:
         regr = Ridge(alpha=damping, fit_intercept=False)
     regr.fit(jacobian, np.ravel(data), sample_weight=weights)
